@@ -9,6 +9,7 @@ import importlib
 import json
 import multiprocessing as mp
 import os
+import re
 import subprocess
 import sys
 import time
@@ -361,9 +362,15 @@ def run_check(pid, tier, seed=0, workers=None, only_job=None):
     violations = []
     known_lines = []
     nonrepro = []
+    faults = []
     for j, pj in enumerate(per_job):
         seen_what = set()
         for f in pj["findings"]:
+            if _harness_fault(f):
+                # the harness itself could not attach to this tree (e.g. a private name it reads was renamed): that says
+                # nothing about the property -- inconclusive, never a violation and never a pass
+                faults.append((jobs[j].get("name"), f))
+                continue
             key = f["what"].split(":")[0]
             if key in seen_what and len(violations) >= 1:
                 continue
@@ -411,6 +418,10 @@ def run_check(pid, tier, seed=0, workers=None, only_job=None):
         msgs.append("counterexample(s) did not reproduce concretely: %s"
                     % "; ".join("%s [%s] %s" % (n, f["what"], rr.get("diverged") or "no failure")
                                 for _, f, rr, n in nonrepro[:3]))
+    if faults and status == 0:
+        status = 2
+        msgs.append("the harness does not fit this tree (exception raised by harness code while reading / binding a name of the "
+                    "code under analysis): %s" % "; ".join("%s [%s]" % (n, f["what"][:200]) for n, f in faults[:3]))
     if errors and status == 0:
         status = 2
     if capped and status == 0:
@@ -461,6 +472,18 @@ def run_check(pid, tier, seed=0, workers=None, only_job=None):
     if status == 2:
         print("INCONCLUSIVE property=%s" % pid)
     return status
+
+
+_ATTACH_ERRORS = re.compile(r"\b(AttributeError|ImportError|ModuleNotFoundError|NameError)\b")
+
+
+def _harness_fault(f):
+    """True when the failure is an AttributeError / ImportError / NameError whose innermost frame is in /verif itself."""
+    what, detail = str(f.get("what", "")), str(f.get("detail") or "")
+    if not _ATTACH_ERRORS.search(what):
+        return False
+    frames = re.findall(r'File "([^"]+)", line', detail)
+    return bool(frames) and os.path.abspath(frames[-1]).startswith(VERIF + os.sep)
 
 
 def _short(d, n=300):
